@@ -1,14 +1,14 @@
 (* FerretCore v1 — definitional interpreter. Fuel is consumed only by calls and loop iterations, so that
    purely structural rewrites (C09) preserve the outcome with the same fuel. *)
-From Coq Require Import ZArith List Bool.
+From Coq Require Import String ZArith List Bool.
 From FV Require Import Core.Syntax.
 Import ListNotations.
 Local Open Scope Z_scope.
 
-Inductive value := VInt (t : ity) (v : Z) | VBool (b : bool) | VUnit | VStruct (sid : nat) (fs : list Z).
+Inductive value := VInt (t : ity) (v : Z) | VBool (b : bool) | VUnit | VStruct (sid : nat) (fs : list Z) | VStr (s : string).
 
 (* printed item *)
-Inductive item := OInt (v : Z) | OBool (b : bool).
+Inductive item := OInt (v : Z) | OBool (b : bool) | OStr (s : string).
 Definition line := list item.
 
 Inductive outcome :=
@@ -62,7 +62,7 @@ Definition declare (x : nat) (v : value) (e : env) : env :=
   end.
 
 Definition item_of (v : value) : option item :=
-  match v with VInt _ z => Some (OInt z) | VBool b => Some (OBool b) | VUnit | VStruct _ _ => None end.
+  match v with VInt _ z => Some (OInt z) | VBool b => Some (OBool b) | VStr s => Some (OStr s) | VUnit | VStruct _ _ => None end.
 
 (* replace the k-th element of a list (None if out of range) *)
 Fixpoint set_nth (k : nat) (z : Z) (l : list Z) : option (list Z) :=
@@ -142,6 +142,7 @@ Fixpoint eval (e : expr) (en : env) (out : list line) {struct e} : res (value * 
   match e with
   | ELit t v => Ok (VInt t v, en) out
   | EBool b => Ok (VBool b, en) out
+  | EStr s => Ok (VStr s, en) out
   | EVar x => match lookup x en with Some v => Ok (v, en) out | None => Wrong end
   | EBin o a b =>
       match o with
@@ -171,6 +172,13 @@ Fixpoint eval (e : expr) (en : env) (out : list line) {struct e} : res (value * 
               match o with
               | Eq => Ok (VBool (Bool.eqb x y), snd rb) out
               | Ne => Ok (VBool (negb (Bool.eqb x y)), snd rb) out
+              | _ => Wrong
+              end
+          | VStr x, VStr y =>
+              match o with
+              | Add => Ok (VStr (String.append x y), snd rb) out
+              | Eq => Ok (VBool (String.eqb x y), snd rb) out
+              | Ne => Ok (VBool (negb (String.eqb x y)), snd rb) out
               | _ => Wrong
               end
           | _, _ => Wrong
@@ -344,6 +352,7 @@ Definition item_eqb (a b : item) : bool :=
   match a, b with
   | OInt x, OInt y => x =? y
   | OBool x, OBool y => Bool.eqb x y
+  | OStr x, OStr y => String.eqb x y
   | _, _ => false
   end.
 Fixpoint list_eqb {A} (eqb : A -> A -> bool) (l1 l2 : list A) : bool :=
